@@ -87,8 +87,26 @@ def lemma_level(v):
 
 def run_step(step, tier, seed):
     if step['kind'] == 'verus':
-        r = vrun.run(step['unit'], step['slice'], REPO, seed=seed if tier == 'thorough' else 0)
+        if tier != 'thorough':
+            r = vrun.run(step['unit'], step['slice'], REPO, seed=0)
+            r['kind'] = 'verus'
+            return r
+        # thorough: three solver seeds; an obligation that is discharged under one seed and fails under another is a
+        # brittle proof (tool problem, exit 2), never an alarm
+        runs = [vrun.run(step['unit'], step['slice'], REPO, seed=(seed or 1) + 7919 * i) for i in range(3)]
+        r = runs[0]
         r['kind'] = 'verus'
+        sigs = [sorted(f.get('message', '') + str(f.get('line')) for f in x['failures']) for x in runs]
+        r['seeds'] = [(seed or 1) + 7919 * i for i in range(3)]
+        r['smt_ms'] = sum(x.get('smt_ms', 0) for x in runs)
+        if any(x['status'] == 'tool' for x in runs):
+            bad = [x for x in runs if x['status'] == 'tool'][0]
+            r['status'] = 'tool'
+            r['tool_errors'] = bad['tool_errors']
+        elif len(set(map(tuple, sigs))) > 1:
+            r['status'] = 'tool'
+            r['tool_errors'] = r['tool_errors'] + ['seed-dependent verification result (brittle proof): failures per seed = %s' % [len(x) for x in sigs]]
+            r['failures'] = []
         return r
     r = krun.run(step, REPO, tier=tier, seed=seed)
     r['kind'] = 'kani'
